@@ -1,4 +1,5 @@
 import Gonuts.Model.WalletBooks
+import Gonuts.Lemmas.WalletBooksRestoreProg
 import Gonuts.Gen.Facts
 /-!
   Tie of the wallet bookkeeping model to `/repo/wallet`: the skeleton of every program of
@@ -33,5 +34,15 @@ theorem skel_RequestMint : (requestMint 0 0).run.skel = Gen.wskel_RequestMint :=
 theorem skel_MintQuoteState : (mintQuoteState 0).run.skel = Gen.wskel_MintQuoteState := by decide +kernel
 theorem skel_RequestMeltQuote : (requestMeltQuote default 0).run.skel = Gen.wskel_RequestMeltQuote := by decide +kernel
 theorem skel_Restore : (restore cx0 []).run.skel = Gen.wskel_Restore := by decide +kernel
+
+/-- The argument of Restore's `IncrementKeysetCounter` call is the delta since the last update (after the
+    `fix:` commit; before it the text was `counter`, the cumulative counter — `restoreBatch … (fixed := false)`). -/
+theorem args_IncrementKeysetCounter_Restore :
+    Gen.args_IncrementKeysetCounter_Restore = [["keyset.Id", "counter-savedCounter"]] := rfl
+
+/-- … and that is what the model's batch passes: with `fixed = true` the increment is `counter - saved`. -/
+theorem restoreBatch_increment (cx : Cx) (mi : Nat) (k : KsInfo) (b : BatchSt) (w : World) (hmi : mi < w.mints.length)
+    (hs : w.script = []) :
+    runPM cx.wi (restoreBatch cx mi k true b) w = batchSpec cx mi k true b w := runPM_restoreBatch cx mi k true b w hmi hs
 
 end Gonuts.Tie.WalletBooks
